@@ -4,7 +4,8 @@ R2 the recurrent prev_hedge input is the stored model output itself; R3 in-place
 R4 losses are computed with gradients enabled by default, prices without, and everything from simulate to the criterion runs inside the
 caller's grad-mode region; R5 the functionals models are built from (clamps, Whalley-Wilmott width, SVI, Black-Scholes closed forms) do not
 break the graph between any tensor argument and their result.
-Third round: R1 also: the loss evaluates the caller's module, not a deep copy of it."""
+Third round: R1 also: the loss evaluates the caller's module, not a deep copy of it.
+Rounds 4-5: R2 analyses the forward hooks the constructor really installs; R5m every built-in model forward passes the gradient from its input."""
 from .. import world as W
 from ..alias import root
 from ..interp import Obj, Unsupported
